@@ -61,8 +61,19 @@ def syntax_cases(rng, n):
                 lines.append("")
             else:
                 lines.append("如果真：%s    令%s = 1" % (eol, nm))
-        kind = rng.randrange(3)
-        if kind == 0:
+        kind = rng.randrange(4)
+        if kind == 3:
+            # a line whose indentation itself is the fault: a space count that is not a multiple of four, or a TAB in a text
+            # indented with spaces — reported at that line, at its first character after the indentation
+            if rng.random() < 0.5:
+                ind = " " * rng.choice([1, 2, 3, 5, 6, 7])
+                lines.insert(0, "令首 = 0")
+            else:
+                ind = "\t"
+                lines.insert(0, "令首 = 0")
+                lines.append("如果真：%s    令内 = 1" % eol)
+            fault_line, col = ind + "令坏 = 3", len(ind)
+        elif kind == 0:
             pre = "令%s = %d + " % (rng.choice(names) + "宽字符", rng.randrange(1, 9))
             fault_line, col = pre + "）", len(pre)
         elif kind == 1:
@@ -75,7 +86,7 @@ def syntax_cases(rng, n):
         tail = eol + "令尾 = 1" + eol if rng.random() < 0.7 else ""
         src = prefix + fault_line + tail
         cursor = len(prefix) + col
-        stripped = fault_line.lstrip(" ")
+        stripped = fault_line.lstrip(" \t")
         indent = len(fault_line) - len(stripped)
         caret = sum(width(c) for c in stripped[:col - indent])
         cases.append({"src": src, "cursor": cursor, "quoted": stripped, "caret": caret, "kind": kind, "eol": repr(eol)})
